@@ -115,6 +115,12 @@ def dec(s, resolve=None):
         return (x for x in items)
     if tag == "range":
         return range(*s["v"])
+    if tag == "mproxy":       # mappings that are not dicts: a read-only view / a UserDict
+        import types
+        return types.MappingProxyType({dec(k, resolve): dec(v, resolve) for k, v in s["v"]})
+    if tag == "userdict":
+        import collections
+        return collections.UserDict({dec(k, resolve): dec(v, resolve) for k, v in s["v"]})
     if tag == "legacyseq":
         return LegacySeq([dec(x, resolve) for x in s["v"]])
     if tag == "dv":
